@@ -125,6 +125,22 @@ Proof.
 Qed.
 
 (* ---------- compression function -------------------------------------------------------------------------------- *)
+Lemma seq_0_64 : seq 0 64 = seq 0 16 ++ seq 16 48.
+Proof. reflexivity. Qed.
+
+Lemma rounds_all Wf r0 : length Wf = 68%nat ->
+  regsN (rounds_f false 48 (skipn 16 Wf) (skipn 20 Wf) (skipn 16 Tj_table)
+           (rounds_f true 16 Wf (skipn 4 Wf) Tj_table r0)) =
+  fold_left (round (map to_N Wf)) (seq 0 64) (regsN r0).
+Proof.
+  intros LW. rewrite seq_0_64, fold_left_app.
+  assert (H1 : forall i, (0 <= i < 0 + 16)%nat -> (i <? 16)%nat = true) by (intros i Hi; apply Nat.ltb_lt; lia).
+  assert (H2 : forall i, (16 <= i < 16 + 48)%nat -> (i <? 16)%nat = false) by (intros i Hi; apply Nat.ltb_ge; lia).
+  rewrite <- (rounds_f_spec Wf true 16 0 r0 H1) by lia.
+  rewrite <- (rounds_f_spec Wf false 48 16 _ H2) by lia.
+  reflexivity.
+Qed.
+
 Lemma cf_f_spec a b c d e f g h B : length B = 64%nat -> Forall byte_ok B ->
   map to_N (cf_f [a; b; c; d; e; f; g; h] B) = sm3_cf [to_N a; to_N b; to_N c; to_N d; to_N e; to_N f; to_N g; to_N h] B.
 Proof.
@@ -132,20 +148,10 @@ Proof.
   pose proof (expand_f_spec B HL HB) as EW.
   set (Wf := expand_f (words_of_bytes_f B)) in *.
   assert (LW : length Wf = 68%nat) by (rewrite <- (map_length to_N), EW; apply expand_length; exact HL).
-  pose proof (rounds_f_spec Wf true 16 0 (a, b, c, d, e, f, g, h)) as R1.
-  change (skipn 0 Wf) with Wf in R1. change (skipn 0 Tj_table) with Tj_table in R1. change (0 + 4)%nat with 4%nat in R1.
-  assert (H1 : forall i, (0 <= i < 0 + 16)%nat -> (i <? 16)%nat = true) by (intros i Hi; apply Nat.ltb_lt; lia).
-  specialize (R1 H1 ltac:(lia) ltac:(lia)).
-  set (r1 := rounds_f true 16 Wf (skipn 4 Wf) Tj_table (a, b, c, d, e, f, g, h)) in *.
-  pose proof (rounds_f_spec Wf false 48 16 r1) as R2.
-  assert (H2 : forall i, (16 <= i < 16 + 48)%nat -> (i <? 16)%nat = false) by (intros i Hi; apply Nat.ltb_ge; lia).
-  specialize (R2 H2 ltac:(lia) ltac:(lia)).
-  change (16 + 4)%nat with 20%nat in R2.
-  rewrite R1 in R2. rewrite <- fold_left_app in R2.
-  change (seq 0 16 ++ seq 16 48) with (seq 0 64) in R2. rewrite EW in R2.
-  change (regsN (a, b, c, d, e, f, g, h)) with (to_N a, to_N b, to_N c, to_N d, to_N e, to_N f, to_N g, to_N h) in R2.
-  rewrite <- R2.
-  destruct (rounds_f false 48 (skipn 16 Wf) (skipn 20 Wf) (skipn 16 Tj_table) r1) as [[[[[[[A1 B1] C1] D1] E1] F1] G1] H1'].
+  pose proof (rounds_all Wf (a, b, c, d, e, f, g, h) LW) as R.
+  rewrite EW in R. cbn [regsN] in R. rewrite <- R.
+  destruct (rounds_f false 48 (skipn 16 Wf) (skipn 20 Wf) (skipn 16 Tj_table)
+              (rounds_f true 16 Wf (skipn 4 Wf) Tj_table (a, b, c, d, e, f, g, h))) as [[[[[[[A1 B1] C1] D1] E1] F1] G1] H1'].
   cbn [regsN map]. rewrite !xorw_spec. reflexivity.
 Qed.
 
